@@ -43,11 +43,11 @@ def configs(tier):
         out.append(('freq-N%d-M%d' % (n, m), {'kind': 'freq', 'N': n, 'M': m}))
         out.append(('roundtrip-N%d-M%d' % (n, m), {'kind': 'roundtrip', 'N': n, 'M': m}))
     out.append(('wrap-N3', {'kind': 'wrap', 'N': 3}))
+    out.append(('normalise-4columns-N6', {'kind': 'norm2', 'N': 6, 'method': 'pchip', '_budget_s': 30 if q else 140}))
     for c in ((2.0,) if q else (2.0, 0.25, 3.0, 256.0)):
-        out.append(('normalise-N6-x%g' % c, {'kind': 'norm', 'N': 6, 'c': c, 'method': 'pchip', '_budget_s': 30 if q else 300}))
-    out.append(('normalise-4columns-N6', {'kind': 'norm2', 'N': 6, 'method': 'pchip', '_budget_s': 30 if q else 300}))
+        out.append(('normalise-N6-x%g' % c, {'kind': 'norm', 'N': 6, 'c': c, 'method': 'pchip', '_budget_s': 30 if q else 140}))
     if not q:
-        out.append(('normalise-N6-x2-splrep', {'kind': 'norm', 'N': 6, 'c': 2.0, 'method': 'splrep', '_budget_s': 300}))
+        out.append(('normalise-N6-x2-splrep', {'kind': 'norm', 'N': 6, 'c': 2.0, 'method': 'splrep', '_budget_s': 140}))
     return out
 
 
